@@ -304,3 +304,84 @@ Proof.
   - intros [s [Hs <-]]. apply (uniform_optimal_edits c); assumption.
   - intros ->. apply uniform_er_spec. exact Hc.
 Qed.
+
+(* ---- the judgement of an observed loss (used by the harness only on a disagreement) -------- *)
+Lemma choices_iff {A} (l : list (list A)) (x : list A) :
+  In x (choices l) <-> Forall2 (fun a xs => In a xs) x l.
+Proof.
+  revert x; induction l as [|xs l IH]; intros x; cbn [choices].
+  - split; [intros [<-|[]]; constructor|intros H; inversion H; left; reflexivity].
+  - rewrite in_flat_map. split.
+    + intros [a [Ha Hx]]. apply in_map_iff in Hx as [t [<- Ht]]. constructor; [exact Ha|].
+      apply IH. exact Ht.
+    + intros H. inversion H as [|a xs' t l' Ha Ht]; subst. exists a. split; [exact Ha|].
+      apply in_map_iff. exists t. split; [reflexivity|]. apply IH. exact Ht.
+Qed.
+
+Lemma adm_vals_iff eos incl norm ci cd cs rh q :
+  In q (adm_vals eos incl norm ci cd cs rh) <->
+  let r := denote eos incl (fst rh) in
+  let h := denote eos incl (snd rh) in
+  if norm then
+    match length r with
+    | O => q = (if (0 <? length h)%nat then 1%Q else 0%Q)
+    | S _ => exists m, er_spec ci cd cs r h m /\ q = ((m # 1) / (Z.of_nat (length r) # 1))%Q
+    end
+  else exists m, er_spec ci cd cs r h m /\ q = (m # 1).
+Proof.
+  unfold adm_vals. cbv zeta. destruct norm.
+  - destruct (length (denote eos incl (fst rh))) eqn:EL.
+    + cbn [In]. split; [intros [<-|[]]; reflexivity|intros ->; left; reflexivity].
+    + rewrite in_map_iff. split.
+      * intros [m [<- Hm]]. exists m. split; [apply opt_counts_iff; exact Hm|reflexivity].
+      * intros [m [Hm ->]]. exists m. split; [reflexivity|apply opt_counts_iff; exact Hm].
+  - rewrite in_map_iff. split.
+    + intros [m [<- Hm]]. exists m. split; [apply opt_counts_iff; exact Hm|reflexivity].
+    + intros [m [Hm ->]]. exists m. split; [reflexivity|apply opt_counts_iff; exact Hm].
+Qed.
+
+(* E is a matrix of error rates the property admits for the given (reference, hypothesis) pairs *)
+Definition allowed_rates eos incl norm ci cd cs
+  (pairs : list (list (list Z * list Z))) (E : list (list Q)) : Prop :=
+  Forall2 (Forall2 (fun q rh => In q (adm_vals eos incl norm ci cd cs rh))) E pairs.
+
+Definition loss_close (red : sreduction) (K : nat) (L : list (list Q)) (tol : Q) (obs : sobs) : bool :=
+  match red, obs with
+  | SNone, SMat rows => forall2b (forall2b (sclose tol)) L rows
+  | SSum, SScalar q => sclose tol (qsum_s (map qsum_s L)) q
+  | SMean, SScalar q => sclose tol (qsum_s (map qsum_s L) / (Z.of_nat K # 1)) q
+  | _, _ => false
+  end.
+
+Lemma Forall2_map_r {A B C} (P : A -> C -> Prop) (g : B -> C) (l : list B) :
+  forall x, Forall2 P x (map g l) <-> Forall2 (fun a b => P a (g b)) x l.
+Proof.
+  induction l as [|b l IH]; intros x; cbn [map].
+  - split; intros H; inversion H; constructor.
+  - split; intros H; inversion H; subst; constructor; try assumption; apply IH; assumption.
+Qed.
+
+Lemma Forall2_iff {A B} (P Q : A -> B -> Prop) : (forall a b, P a b <-> Q a b) ->
+  forall x l, Forall2 P x l <-> Forall2 Q x l.
+Proof.
+  intros HPQ x l. split; intros H; induction H; constructor; try assumption; apply HPQ; assumption.
+Qed.
+
+Lemma choices_rows_iff {A B} (f : B -> list A) (ps : list (list B)) (E : list (list A)) :
+  In E (choices (map (fun row => choices (map f row)) ps)) <->
+  Forall2 (Forall2 (fun q b => In q (f b))) E ps.
+Proof.
+  rewrite choices_iff, Forall2_map_r. apply Forall2_iff. intros e row.
+  rewrite choices_iff, Forall2_map_r. reflexivity.
+Qed.
+
+Theorem spec_mer_core_iff eos incl norm ci cd cs sub_avg red M pairs W tol obs : (2 <= M)%nat ->
+  spec_mer_core eos incl norm ci cd cs sub_avg red M pairs W tol obs = true <->
+  exists E, allowed_rates eos incl norm ci cd cs pairs E
+            /\ loss_close red (length pairs * M) (spec_loss sub_avg M E W) tol obs = true.
+Proof.
+  intros HM. unfold spec_mer_core.
+  replace (M <? 2)%nat with false by (symmetry; apply Nat.ltb_ge; exact HM).
+  rewrite existsb_exists. unfold allowed_rates, loss_close.
+  split; intros [E [H1 H2]]; exists E; (split; [|exact H2]); apply choices_rows_iff; exact H1.
+Qed.
